@@ -225,6 +225,25 @@ CLAIMED = {
                 "no adjacency; not repairable in the importer without changing the file contents).",
         "design_ref": "DESIGN.md §7 C11",
     },
+    "C15": {
+        "text": "Lean 4 theorems over hand-written models of swap_edge, cut_outer_edge, cut_inner_edge and collapse_edge (one definition "
+                "per Rust function, same reads in the same order) and over the anchor merge table REGENERATED from utils/anchors.rs on "
+                "every run: swap and both cuts preserve WF 3 for every outcome under the guards the kernels need (faces closed at the edge "
+                "darts, free in-use spare darts); collapse preserves WF for the kernel with non-null assertions at its sew sites, which the "
+                "real kernel refines whenever it succeeds; a failed call leaves the map unchanged; the topology guards of swap/collapse as "
+                "equations; the anchor rule of is_collapsible is total and picks the stated target; anchor algebra; the cut vertex is the "
+                "exact midpoint and cuts conserve signed area (ring over Q); the midpoint is stored under the vertex id and both halves of "
+                "a cut boundary edge keep its anchor (after repair of D15c/D15b). The clauses the code does NOT satisfy are proved false by "
+                "decide witnesses and recorded as known findings (D9 swap averages corners; D15a,d,e,f,g collapse). Tie: every dart of "
+                "1x1..3x3 split grids x swap/cut/collapse, plain/anchored/multi-surface/pre-refined meshes, adaptive histories, tx blocks "
+                "on the real kernels vs the model; independent oracle on exact Fractions (triangles, counts, areas, coordinates, flags, "
+                "anchors, orientation).",
+        "note": "Partial: the property is FALSE on the current tree in the recorded ways (known findings D9, D15a, D15d, D15e, D15f, D15g, "
+                "each with a structural matcher; D15b, D15c repaired). NOT proved (oracle only): local topology after swap/cut on arbitrary "
+                "surrounding maps, global V/E/F counts, orientation of the whole fan after a collapse, that a successful collapse never sews "
+                "a null dart. Trusted: Lean kernel + 3 standard axioms; translator gen_lean.py (anchors).",
+        "design_ref": "DESIGN.md §7 C15, §13.3",
+    },
     "C16": {
         "text": "Lean 4 theorems for the discrete clauses: detect_orientation_issue returns the error iff some vertex starts two segments or "
                 "ends two segments, for all geometries as lists of index pairs (with companions: closed loops and disjoint boundaries "
@@ -255,7 +274,7 @@ CLAIMED = {
     },
 }
 
-REASONS_NOT_YET = "check not built yet in this round (planned, see DESIGN.md §7); no claim is made"
+REASONS_NOT_YET = "check not built (see DESIGN.md §7); no claim is made"
 
 
 def main():
